@@ -377,7 +377,7 @@ def run(ctx):
                    dict(store="SimpleMemory", lit="L0", binops=True, expand_binops=False)]
     for cfg in configs:
         spec = Spec(**cfg)
-        explore.bfs(spec, ctx, max_depth=40, batch=4)
+        explore.bfs(spec, ctx, max_depth=40, batch=4, time_cap=(240 if thorough else None))
     # schedules
     V = MUT_V
     items = []
